@@ -93,6 +93,11 @@ func valJSON(v *variants.Variant) Ev {
 
 type c06obj struct{ a int }
 
+type c06tagged struct {
+	Name string
+	Tags []string
+}
+
 func valuePool(full bool) []*variants.Variant {
 	arr := variants.VariantFromArray([]*variants.Variant{variants.VariantFromInteger(1), variants.VariantFromString("abc"), variants.VariantFromInteger(2)})
 	obj := variants.VariantFromObject(&c06obj{1})
@@ -140,6 +145,11 @@ func valuePool(full bool) []*variants.Variant {
 			d(time.Hour), d(time.Nanosecond), d(-1500*time.Millisecond),
 			t(1700000000), t(-5),
 			variants.VariantFromArray([]*variants.Variant{}), variants.VariantFromObject(map[string]int{"a": 1}),
+			// host values whose type is uncomparable only through a component (a struct with a slice field, an array of slices, a
+			// struct holding a function), twice each with equal contents
+			variants.VariantFromObject(c06tagged{"s1", []string{"x"}}), variants.VariantFromObject(c06tagged{"s1", []string{"x"}}),
+			variants.VariantFromObject([1][]int{{1}}), variants.VariantFromObject([1][]int{{1}}),
+			variants.VariantFromObject(struct{ F func() }{nil}), variants.VariantFromObject(struct{ M map[string]int }{map[string]int{"a": 1}}),
 			variants.VariantFromInteger(64), variants.VariantFromInteger(10), variants.VariantFromLong(19), variants.VariantFromInteger(-3), variants.VariantFromLong(41), variants.VariantFromLong(2),
 			// the same instants in other zones, instants with nanoseconds
 			variants.VariantFromDateTime(time.Unix(86400, 0).In(time.FixedZone("east", 10800))), variants.VariantFromDateTime(time.Unix(100, 0).In(time.FixedZone("west", -34200))),
